@@ -844,6 +844,14 @@ def oracle(ctx: Ctx, deep: bool = False):
         if wraps:
             ctx.notes.append(f"{wraps} cases with acs_region//2 > centre: the protected slice wraps around (Python negative "
                              "start) — outside the quantifier of the property, compared as coded")
+        gs = [c["seed"] for case, res in _RESULTS if case["kind"] == "gauss" and case["use_seed"] and res.get("ok")
+              for c in res.get("calls", [])]
+        if gs:
+            ctx.notes.append(f"{len(set(gs))} distinct libc seeds over {len(gs)} seeded Gaussian samples: int(mean(ord(c))) is a "
+                             "coarse hash of file name + slice (deterministic, as the property asks, but many samples share a "
+                             "candidate stream) — observation, not a violation")
+        ctx.notes.append("odd acs_region sizes protect 2*(a//2) = a-1 rows/columns (slice centre-a//2 : centre+a//2) — "
+                         "observation, the oracle uses the window the code documents")
         # (b) the pipeline stage as build_mri_transforms builds it, and more split / forward cases (use_seed off included)
         extra = []
         for kind in ("gauss", "uniform", "half"):
